@@ -366,7 +366,7 @@ theorem inv_cancel {s : State} (hi : Inv s) (id : Nat) (who : Addr) : Inv (doCan
           omega
         · simp [allCallIds, callIds, settledCallIds_append, settledCallIds]
 
-theorem inv_incFee {s : State} (hi : Inv s) (id : Nat) (who : Addr) (t : Token) (add : Nat) : Inv (doIncFee s id who t add).1 := by
+theorem inv_incFee {s : State} (hi : Inv s) (id : Nat) (who : Addr) (t : Token) (add : Nat) : Inv (doIncFee s id who t add evm).1 := by
   unfold doIncFee
   split
   · exact hi
@@ -537,7 +537,7 @@ theorem inv_step {s : State} (hi : Inv s) (op : Op) : Inv (step s op).1 := by
   cases op with
   | send a d t am f => exact inv_send hi a d t am f
   | cancel id who => exact inv_cancel hi id who
-  | incFee id who t add => exact inv_incFee hi id who t add
+  | incFee id who t add evm => exact inv_incFee hi id who t add
   | reqBatch t mf bf fr => exact inv_reqBatch hi t mf bf fr
   | bridgeCall a r to d m cs => exact inv_bridgeCall hi a r to d m cs
   | psend a d t am f => exact inv_psend hi a d t am f
@@ -638,7 +638,7 @@ theorem settled_grows (s : State) (op : Op) : ∃ l, (step s op).1.settled = s.s
     simp only [step]; unfold doCancel
     repeat' split
     all_goals first | (refine ⟨[], ?_⟩; simp; done) | exact ⟨_, rfl⟩
-  | incFee id who t add => simp only [step]; unfold doIncFee; (repeat' split) <;> exact ⟨[], by simp⟩
+  | incFee id who t add evm => simp only [step]; unfold doIncFee; (repeat' split) <;> exact ⟨[], by simp⟩
   | reqBatch t mf bf fr => simp only [step]; unfold doReqBatch; simp only; (repeat' split) <;> exact ⟨[], by simp⟩
   | bridgeCall a r to d m cs => simp only [step]; unfold doBridgeCall; simp only; (repeat' split) <;> exact ⟨[], by simp⟩
   | psend a d t am f => simp only [step]; unfold doPSend; (repeat' split) <;> exact ⟨[], by simp⟩
